@@ -133,10 +133,10 @@ class Interp:
                               and st.targets[0].id == n and isinstance(st.value, ast.Call)):
                             c = s.repo.resolve_class(mod, ast.unparse(st.value.func))
                             if c: env[name] = Obj(c)            # module-level instance, e.g. ice = AntarcticIce()
+                    if name not in env and n in s.repo.imports.get(mod, {}) and not s.repo.imports[mod][n].startswith("pyrex"):
+                        env[name] = Mod(s.repo.imports[mod][n])  # re-exported library name (e.g. the trapz compatibility import)
                 elif tgt in s.repo.modules:
                     env[name] = Mod(tgt)
-                elif mod in s.repo.modules and n in s.repo.imports.get(mod, {}) and not s.repo.imports[mod][n].startswith("pyrex"):
-                    env[name] = Mod(s.repo.imports[mod][n])      # re-exported library name (e.g. the trapz compatibility import)
             else:
                 env[name] = Mod(tgt)
         for st in s.repo.modules[m].body:
@@ -152,12 +152,13 @@ class Interp:
         if depth > s.max_depth:
             return s.dom.top("inlining bound")
         node = fn.node
-        # purity shortcut: only for calls that involve no repo object at all (objects have identity and mutable
-        # state: `signal.copy()` of an untracked signal must still yield an object that later stores can track)
-        if (fn.self_obj is None and not any(isinstance(a, Obj) for a in list(args) + list(kwargs.values()))
-                and all(s.untracked(a) for a in args)
+        # purity shortcut: a call whose receiver and arguments are all untracked returns *untracked* without being analysed --
+        # unless the callee hands back a repo object (`signal.copy()`, a constructor call, `self`): objects have identity
+        # and mutable state, so later stores on the result must be tracked even if nothing is tracked yet.
+        if ((fn.self_obj is None or s.untracked(fn.self_obj)) and all(s.untracked(a) for a in args)
                 and all(s.untracked(v) for v in kwargs.values()) and not isinstance(node, ast.Lambda)
-                and getattr(node, "name", "") != "__init__" and s.dom.pure_shortcut and isinstance(fn.env, dict)):
+                and getattr(node, "name", "") != "__init__" and s.dom.pure_shortcut and isinstance(fn.env, dict)
+                and not s.returns_object(node)):
             s.stats["shortcuts"] += 1
             return s.dom.U
         local = Scope(fn.env)
@@ -182,6 +183,45 @@ class Interp:
         r = None
         for v in rets: r = s.vjoin(r, v)
         return r if r is not None else s.dom.U
+
+    def returns_object(s, node):
+        """Syntactic: may a `return` of this function hand back a repo object (constructor call, .copy(), self, or a local bound to one)?"""
+        memo = s.__dict__.setdefault("_retobj", {})
+        if id(node) in memo:
+            return memo[id(node)]
+        names = set()
+        res = False
+
+        def objexpr(e):
+            if isinstance(e, ast.Name):
+                return e.id == "self" or e.id in names
+            if isinstance(e, ast.Call):
+                f = e.func
+                if isinstance(f, ast.Name) and f.id in s.repo.by_name:
+                    return True
+                if isinstance(f, ast.Attribute) and f.attr in ("copy", "with_times") :
+                    return True
+                if isinstance(f, ast.Attribute) and isinstance(f.value, ast.Name) and f.value.id == "self" and f.attr in ("solution_class",):
+                    return True
+            if isinstance(e, (ast.Tuple, ast.List)):
+                return any(objexpr(x) for x in e.elts)
+            if isinstance(e, (ast.ListComp, ast.GeneratorExp)):
+                return objexpr(e.elt)
+            if isinstance(e, ast.IfExp):
+                return objexpr(e.body) or objexpr(e.orelse)
+            return False
+        for _ in range(2):
+            for n in ast.walk(node):
+                if isinstance(n, ast.Assign) and len(n.targets) == 1 and isinstance(n.targets[0], ast.Name) and objexpr(n.value):
+                    names.add(n.targets[0].id)
+                elif isinstance(n, ast.Call) and isinstance(n.func, ast.Attribute) and n.func.attr in ("append", "extend") \
+                        and isinstance(n.func.value, ast.Name) and n.args and objexpr(n.args[0]):
+                    names.add(n.func.value.id)
+        for n in ast.walk(node):
+            if isinstance(n, ast.Return) and n.value is not None and objexpr(n.value):
+                res = True
+        memo[id(node)] = res
+        return res
 
     def construct(s, ci, args, kwargs, depth):
         obj = Obj(ci)
